@@ -259,7 +259,9 @@ def structure_obligations() -> list:
     codes = list(V._codes)
     import itertools
     # _select_checks on every selection of up to 2 selectors from codes + categories (finite, exhaustive)
-    selectors = codes + ['E', 'W']
+    # ... plus strings that are neither a code nor a category (empty, partial codes, other case, padded): they select
+    # nothing ("--select E101," hands an empty selector to validate())
+    selectors = codes + ['E', 'W'] + ['', 'W3', 'W30', 'E1', 'E10', 'X', 'e101', 'w', ' E101', 'E1011']
     bad = []
     n = 0
     for r in (0, 1, 2):
